@@ -3178,3 +3178,27 @@ mod tests {
         Manager::new()
     }
 }
+
+#[cfg(feature = "verif-hooks")]
+pub mod verif_hooks_c17 {
+    //! Verification hooks (add-only): a `Component` for a target that is run
+    //! by an external harness instead of the manager.
+    use super::*;
+
+    pub fn component(
+        name: &str,
+        type_name: &'static str,
+        ingresses: Arc<ingress::Register>,
+    ) -> Component {
+        Component {
+            name: name.into(),
+            type_name,
+            http_client: None,
+            metrics: None,
+            http_resources: Default::default(),
+            roto_compiled: None,
+            tracer: Default::default(),
+            ingresses,
+        }
+    }
+}
